@@ -285,6 +285,11 @@ class C20(core.Check):
             b = core.call(lambda: mf.load(fp, **kw))
         if b[:2] != ref[:2]:
             return viol("load_untranslated_stream_differs_from_loads", op, {"load": _short(b[1]), "loads": _short(ref[1])}, **sig)
+        # a stream built on a file descriptor: its .name is an int, not a path
+        with os.fdopen(os.open(p, os.O_RDONLY), "r", encoding="utf-8", newline="") as fp:
+            b2 = core.call(lambda: mf.load(fp, **kw))
+        if b2[:2] != ref[:2] and "include" not in op["text"].lower():
+            return viol("load_descriptor_stream_differs_from_loads", op, {"load": _short(b2[1]), "loads": _short(ref[1])}, **sig)
         c = core.call(lambda: mf.load(io.StringIO(op["text"], newline=""), **kw))
         if c[:2] != ref[:2]:
             return viol("load_stringio_differs_from_loads", op, {"load": _short(c[1]), "loads": _short(ref[1])}, **sig)
